@@ -316,7 +316,6 @@ impl<'data> ProguardCache<'data> {
         // At this point, we know how many members/members-by-params each class has because we kept count,
         // but we don't know where each class's entries start. We'll rectify that below.
 
-        let mut writer = watto::Writer::new(writer);
         let string_bytes = string_table.into_bytes();
 
         let num_members = classes.values().map(|c| c.class.members_len).sum::<u32>();
@@ -334,8 +333,12 @@ impl<'data> ProguardCache<'data> {
             string_bytes: string_bytes.len() as u32,
         };
 
+        // The number of bytes written so far; needed to pad each section to 8 bytes.
+        let mut pos = 0;
+
         writer.write_all(header.as_bytes())?;
-        writer.align_to(8)?;
+        pos += header.as_bytes().len();
+        pos += write_padding(writer, pos)?;
 
         let mut members = Vec::new();
         let mut members_by_params = Vec::new();
@@ -351,14 +354,17 @@ impl<'data> ProguardCache<'data> {
                     .flat_map(|m| m.into_iter()),
             );
             writer.write_all(c.class.as_bytes())?;
+            pos += c.class.as_bytes().len();
         }
-        writer.align_to(8)?;
+        pos += write_padding(writer, pos)?;
 
         writer.write_all(members.as_bytes())?;
-        writer.align_to(8)?;
+        pos += members.as_bytes().len();
+        pos += write_padding(writer, pos)?;
 
         writer.write_all(members_by_params.as_bytes())?;
-        writer.align_to(8)?;
+        pos += members_by_params.as_bytes().len();
+        write_padding(writer, pos)?;
 
         writer.write_all(&string_bytes)?;
 
@@ -409,6 +415,17 @@ impl<'data> ProguardCache<'data> {
     pub(crate) fn read_string(&self, offset: u32) -> Result<&'data str, watto::ReadStringError> {
         StringTable::read(self.string_bytes, offset as usize)
     }
+}
+
+/// Writes the zero bytes that pad a section ending at `pos` to a multiple of 8 bytes
+/// and returns their number.
+///
+/// This uses `write_all`, so that short writes of the underlying writer are
+/// completed and its errors are reported instead of silently losing padding bytes.
+fn write_padding<W: Write>(writer: &mut W, pos: usize) -> std::io::Result<usize> {
+    let len = (8 - pos % 8) % 8;
+    writer.write_all(&[0u8; 8][..len])?;
+    Ok(len)
 }
 
 /// A class that is currently being constructed in the course of writing a [`ProguardCache`].
